@@ -171,6 +171,7 @@ type FuncCtx struct {
 	inlineStack map[*ssa.Function]bool
 	freshRefs map[string]bool
 	guardMode bool
+	watched   map[string]bool // channels some select of the function receives from (flag watches)
 	boxedStructs map[string]StructV // interface terms built from struct values in this activation
 	recHeap   *heapTemplate // heap parameters of the spec function whose body is being emitted
 	guardAcc  map[*ssa.Function]map[int]string
